@@ -338,6 +338,23 @@ func c09KnownInvalid(doc []byte, stdValid bool, dest string, streamOK, bufOK boo
 	return ""
 }
 
+// two results of the Decoder that differ by the given number of bytes consumed and by nothing else
+func c09SameButOffset(a, b c09Res, by int64) bool {
+	return a.ok && b.ok && a.panicd == "" && b.panicd == "" && a.snap == b.snap && a.offset+by == b.offset
+}
+
+// the text without the one ',' or ':' it begins with (behind white space); nil when it begins with something else
+func c09SeparatorDropped(doc []byte) []byte {
+	i := 0
+	for i < len(doc) && (doc[i] == ' ' || doc[i] == '\t' || doc[i] == '\n' || doc[i] == '\r') {
+		i++
+	}
+	if i < len(doc) && (doc[i] == ',' || doc[i] == ':') {
+		return append(append([]byte{}, doc[:i]...), doc[i+1:]...)
+	}
+	return nil
+}
+
 // the chunkings of the quantifier for a document of n bytes
 func c09Chunkings(o *Out, n int, heavy bool) [][]int {
 	var res [][]int
@@ -539,6 +556,10 @@ func runC09(o *Out) {
 					o.known("RawSkipUnvalidated", fmt.Sprintf("%q into RawMessage", ds))
 				case c09KnownInvalid(doc, stdValid, d.name, whole.ok, buf.ok) != "":
 					o.known(c09KnownInvalid(doc, stdValid, d.name, whole.ok, buf.ok), fmt.Sprintf("%q into %s", ds, d.name))
+				case whole.ok && !buf.ok && c09SeparatorDropped(doc) != nil && c09SameButOffset(c09Stream(c09SeparatorDropped(doc), d, nil), whole, 1):
+					// C05's StreamLeadingSeparator: the Decoder steps over one ',' or ':' in front of a value (pinned by the suite);
+					// the text without that byte fares the same in stream mode
+					o.known("StreamLeadingSeparator", fmt.Sprintf("%q into %s", ds, d.name))
 				case whole.ok && !buf.ok:
 					o.violation("C09", "Decoder.Decode accepts the beginning of an invalid text that neither Unmarshal nor encoding/json's Decoder accept", map[string]string{
 						"doc": clip(ds), "doc_hex": hx(doc), "dest": d.name, "stream": clip(whole.String())})
